@@ -74,6 +74,25 @@ class C15:
                     now = tgt
         return mk("h%d" % i, timeout, ops, {"kind": "history", "keys": nk, "timeout": timeout, "len": len(ops)})
 
+    def gen_mass(self, rng, i):
+        """many pins (65-400) made within one period, all expired together, then traffic that goes on for several more
+        periods: after one further period none of them may be left (whatever the number), the table stays bounded"""
+        timeout = rng.choice([1, 2, 5, 30])
+        nk = rng.choice([65, 66, 100, 129, 200, 400])
+        backs = [b"127.0.0.%d:5060" % (j + 1) for j in range(3)]
+        ops = []
+        for j in range(nk):
+            ops.append((b"add", b"mass%d-t-sip:a@h-u-sip:b@h" % j, rng.choice(backs), rng.choice([0, 0, 1, timeout])))
+            if rng.random() < 0.1:
+                ops.append((b"adv", b"", b"", rng.choice([1, 5]) * MS))
+        ops.append((b"adv", b"", b"", timeout * SEC + 200 * MS))            # every one of them has expired
+        for k in range(rng.randrange(2, 6)):
+            ops.append((b"add", b"later%d-t-sip:a@h-u-sip:b@h" % k, rng.choice(backs), 0))
+            ops.append((b"get", b"mass%d-t-sip:a@h-u-sip:b@h" % rng.randrange(nk), b"", 0))
+            ops.append((b"adv", b"", b"", timeout * SEC + 200 * MS))
+        ops.append((b"add", b"last-t-sip:a@h-u-sip:b@h", rng.choice(backs), 0))
+        return mk("m%d" % i, timeout, ops, {"kind": "mass-expiry", "keys": nk, "timeout": timeout, "len": len(ops)})
+
     def run(self, ctx):
         rng, tier = ctx["rng"], ctx["tier"]
         cases = lib.load_corpus("C15")
@@ -81,6 +100,8 @@ class C15:
         m = 600 if tier == "quick" else 20000
         for i in range(m):
             cases.append(self.gen(rng, i, big=(i % 10 == 0)))
+        for i in range(24 if tier == "quick" else 600):
+            cases.append(self.gen_mass(rng, i))
 
         def nontrivial(c, io):
             vals = io[0::2]
@@ -101,6 +122,15 @@ class C15:
         for i in range(nw):
             f = pf.dialog_history(rng, blocks[i], n_dialogs=rng.randrange(1, 5))
             wcases.append(f.s.case("t%d" % i, {"kind": "termination-history", "backends": len(f.backends)}))
+        # ---- and in REAL time: the real proxy started with dialogTimeout 2 s; pins probed at <= 35 % of their lifetime
+        #      (max(2, Expires) seconds) and again >= 600 ms after it is over; the driver sleeps, the model's clock advances by
+        #      as much; the judge demands the pinned backend in the first half of the lifetime and the rotation's next backend
+        #      once the lifetime is over by 300 ms
+        nt = 48 if tier == "quick" else 480
+        tblocks = pg.alloc_blocks(nt)
+        for i in range(nt):
+            f = pf.timed_history(rng, tblocks[i])
+            wcases.append(f.s.case("rt%d" % i, {"kind": "real-time-history", "backends": len(f.backends)}))
         wcov, wfail = pc.explore(ctx, "C15", wcases, ["proxy-C04"], nontrivial=lambda c, ni: sum(1 for o, _ in ni if o) >= 3)
         cov["proxy_level"] = wcov
         cov["evaluations"] += wcov["evaluations"]
